@@ -1,6 +1,7 @@
 import Driver.Common
 import RSocketModel.Codec
 import RSocketModel.Builders
+import RSocketModel.Errors
 open RSocketModel RSocketModel.Codec
 namespace Driver
 
@@ -120,5 +121,25 @@ def cmdBuild (args : List String) : String :=
       | none => "DIFF unreadable"
     s!"{dumpFrame f} | {hexOrDash (encode f)} | {g}"
   | none => "bad-op"
+
+/-- `errconv sid=<n> kind=protocol|other code=<n> text=N|-|<hex>` → `<dump of the ERROR frame> | <hex> | <what the peer's
+application is handed: runtime|protocol:<code>> <text hex>` -/
+def cmdErrconv (args : List String) : String :=
+  let e : Option RSocketModel.Errors.Exc := do
+    let k ← kv args "kind"
+    let t ← kvOptHex args "text"
+    if k == "protocol" then pure (.protocol (← kvNat args "code") t)
+    else if k == "other" then (t.map .other) else none
+  match e, kvNat args "sid" with
+  | some e, some sid =>
+    let f := RSocketModel.Errors.toErrorFrame sid e
+    let peer := match decode (encode f) with
+      | .frame g => match RSocketModel.Errors.ofErrorFrame g with
+        | some (.runtime t) => s!"runtime {hexOrDash t}"
+        | some (.protocol c t) => s!"protocol:{c} {hexOrDash t}"
+        | none => "not-an-error-frame"
+      | _ => "undecodable"
+    s!"{dumpFrame f} | {hexOrDash (encode f)} | {peer}"
+  | _, _ => "bad-op"
 
 end Driver
